@@ -6,6 +6,7 @@
 import PyGqlModel.Sdl
 import PyGqlModel.SdlExtend
 import PyGqlModel.SdlAdditional
+import PyGqlModel.SdlInProgress
 import PyGqlModel.Props.C11
 
 set_option linter.unusedVariables false
@@ -403,6 +404,24 @@ theorem buildA_rejects (doc : Doc) (ie : Bool) (add : List TypeD) (e : Err) (h :
       · rcases bind_err _ _ _ h2 with h5 | ⟨_, _, h6⟩
         · exact extendSchemaA_err env live doc _ e h5
         · simp [pure, Except.pure] at h6
+
+/-- … and so has the model with the builder's real in-progress bookkeeping (`buildP`, PyGqlModel/SdlInProgress.lean) -/
+theorem buildP_rejects (doc : Doc) (ie : Bool) (add : List TypeD) (e : Err) (h : buildP doc ie add = .error e) :
+    (∃ l, e = .lib l) ∨ e = .internal "RecursionError" := by
+  unfold buildP at h
+  simp only [] at h
+  rcases bind_err _ _ _ h with h3 | ⟨c, _, h4⟩
+  · rw [collect_rejects_sdl doc e h3]; exact good_lib _
+  · rcases bind_err _ _ _ h4 with h1 | ⟨⟨env, live⟩, _, h2⟩
+    · exact buildCollectedA_err c _ e h1
+    · simp only [] at h2
+      split at h2
+      · simp [pure, Except.pure] at h2
+      · rcases bind_err _ _ _ h2 with h5 | ⟨_, _, h6⟩
+        · exact extendSchemaA_err _ _ _ _ e h5
+        · split at h6
+          · simp only [sdlErr] at h6; cases h6; exact good_lib _
+          · simp [pure, Except.pure] at h6
 
 /-- `input A { a: A = {a: null} }  type Query { f(a: A): Int }` (finding S1b) -/
 def s1bDoc : Doc := [
